@@ -248,6 +248,9 @@ impl World {
                 let mut rec = call.clone();
                 rec["res"] = out["res"].clone();
                 rec["ret"] = out["ret"].clone();
+                if let Some(g) = out.get("got") {
+                    rec["got"] = g.clone();
+                }
                 if level == ObsLevel::View {
                     rec["before"] = before;
                     rec["after"] = proj::view(&tx, None);
@@ -612,6 +615,9 @@ impl World {
                     let mut rec = call.clone();
                     rec["res"] = out["res"].clone();
                     rec["ret"] = out["ret"].clone();
+                    if let Some(g) = out.get("got") {
+                        rec["got"] = g.clone();
+                    }
                     done.push(rec);
                 }
             };
